@@ -32,6 +32,7 @@ EnumForms == {"plain", "extras", "error_ty", "error_cb", "skip_ok", "skip_group"
               "gen_two_lt_no_attr", "gen_lt_undeclared", "gen_lt_dup", "gen_type_missing", "gen_type_undeclared", "gen_type_dup",
               \* malformed / duplicated
               "dup_extras", "dup_error", "dup_utf8", "unknown_logos", "logos_no_parens", "bad_utf8_val", "skip_nullable", "skip_bad_lit",
+              "skip_nonutf8", "skip_nonutf8_group", "skip_greedy", "skip_undef_sub", "skip_lookstart",
               "sub_dup", "sub_bad_name", "sub_undef_ref", "sub_nonutf8", "source_deprecated", "error_attr_variant", "const_generic", "dup_error_cb"}
 
 Seconds == {"none", "other_ok", "same_tok", "overlap_same_prio"}
